@@ -275,7 +275,8 @@ def check_uid(chk, repo):
             if k == 71:
                 names = {"x"} | {f"x_{i}" for i in range(11)} | {"x_70"}
             c = MMutCircuit({m: {"type": "and"} for m in names}, [])
-            env = {"self": c, params[1]: "x"}
+            env = base_env(repo)
+            env.update({"self": c, params[1]: "x"})
             if len(params) > 2:
                 env[params[2]] = blocked
             r = _run_body(fi, env, "Circuit.uid")
